@@ -5,16 +5,30 @@ import Csvq.Model.CursorStmt
 namespace Csvq.CursorStmt
 open Csvq Csvq.Cursor
 
-/-- only the innermost frame is read -/
-theorem evalPlaceholder_cons (f : Frame) (ctx : Ctx) (h : Holder) :
-    evalPlaceholder (f :: ctx) h = evalPlaceholder [f] h := by
-  simp [evalPlaceholder, ctxValue]
+/-- reading a placeholder: the expression of the innermost frame, evaluated in the context below it -/
+theorem evalPlaceholder_push (f : Frame) (r : Bool) (below : Ctx) (h : Holder) :
+    evalPlaceholder (.push f r below) h = (frameIndex f h).bind (evalWith (evalPlaceholder below)) := by
+  simp only [evalPlaceholder]
+  cases frameIndex f h <;> rfl
 
-theorem evalPlaceholder_cons_fun (f : Frame) (ctx : Ctx) :
-    evalPlaceholder (f :: ctx) = evalPlaceholder [f] := by
-  funext h; exact evalPlaceholder_cons f ctx h
+theorem evalPlaceholder_prepared (ctx : Ctx) (us : List RV) :
+    evalPlaceholder (ctxForPrepared ctx (newReplaceValues us)) = ownLookup (evalPlaceholder ctx) us := by
+  funext h
+  simp [ctxForPrepared, ownLookup, evalPlaceholder_push]
 
-theorem newFrameFrom_values (l : List RV) : ∀ (i : Nat) (vals : List Int) (names : List (String × Nat)),
+theorem evalWith_congr (lk lk' : Holder → Option Int) (e : VExpr) (h : ∀ x, lk x = lk' x) :
+    evalWith lk e = evalWith lk' e := by
+  have : lk = lk' := funext h
+  rw [this]
+
+theorem evalWith_closed (lk lk' : Holder → Option Int) (e : VExpr) (hc : e.closed = true) :
+    evalWith lk e = evalWith lk' e := by
+  induction e with
+  | lit n => rfl
+  | ph h => simp [VExpr.closed] at hc
+  | plus e k ih => simp only [evalWith]; rw [ih (by simpa [VExpr.closed] using hc)]
+
+theorem newFrameFrom_values (l : List RV) : ∀ (i : Nat) (vals : List VExpr) (names : List (String × Nat)),
     (newFrameFrom i vals names l).values = vals.reverse ++ l.map (·.value) := by
   induction l with
   | nil => intro i vals names; simp [newFrameFrom]
@@ -29,12 +43,71 @@ theorem newReplaceValues_nil : newReplaceValues [] = ⟨[], []⟩ := rfl
 theorem evalPlaceholder_empty_frame (ctx : Ctx) (h : Holder) :
     evalPlaceholder (ctxForPrepared ctx (newReplaceValues [])) h = none := by
   cases h with
-  | pos o => cases o <;> simp [evalPlaceholder, ctxValue, ctxForPrepared, newReplaceValues_nil]
-  | named n => simp [evalPlaceholder, ctxValue, ctxForPrepared, newReplaceValues_nil, assoc]
+  | pos o => cases o <;> simp [evalPlaceholder, ctxForPrepared, newReplaceValues_nil, frameIndex]
+  | named n => simp [evalPlaceholder, ctxForPrepared, newReplaceValues_nil, frameIndex, assoc]
 
 theorem evalPlaceholder_empty_frame_fun (ctx : Ctx) :
     evalPlaceholder (ctxForPrepared ctx (newReplaceValues [])) = fun _ => none := by
   funext h; exact evalPlaceholder_empty_frame ctx h
+
+/-! ### fuel -/
+
+theorem getElem?_size_le_maxSize (l : List VExpr) (i : Nat) (e : VExpr) (h : l[i]? = some e) : e.size ≤ maxSize l := by
+  induction l generalizing i with
+  | nil => simp at h
+  | cons x rest ih =>
+    cases i with
+    | zero =>
+      simp at h; subst h; simp only [maxSize]; omega
+    | succ j =>
+      simp at h
+      have := ih j h
+      simp only [maxSize]; omega
+
+theorem frameIndex_size_le (f : Frame) (h : Holder) (e : VExpr) (hi : frameIndex f h = some e) :
+    e.size ≤ maxSize f.values := by
+  cases h with
+  | named n =>
+    simp only [frameIndex] at hi
+    cases ha : assoc f.names n with
+    | none => simp [ha] at hi
+    | some i => simp [ha] at hi; exact getElem?_size_le_maxSize _ i e hi
+  | pos o =>
+    cases o with
+    | zero => simp [frameIndex] at hi
+    | succ i => simp only [frameIndex] at hi; exact getElem?_size_le_maxSize _ i e hi
+
+/-- over recorded frames `size e + weight c` nested calls suffice, and the answer is the structural evaluation -/
+theorem evalV_recorded : ∀ (fuel : Nat) (c : Ctx) (e : VExpr), c.allRecorded = true → e.size + c.weight ≤ fuel →
+    evalV fuel c e = PV.ofOption (evalWith (evalPlaceholder c) e) := by
+  intro fuel
+  induction fuel with
+  | zero =>
+    intro c e _ hle
+    cases e <;> simp [VExpr.size] at hle <;> omega
+  | succ fuel ih =>
+    intro c e hr hle
+    cases e with
+    | lit n => simp [evalV, evalWith, PV.ofOption]
+    | plus e k =>
+      have := ih c e hr (by simp only [VExpr.size] at hle; omega)
+      simp only [evalV, this, evalWith]
+      cases evalWith (evalPlaceholder c) e <;> simp [PV.ofOption]
+    | ph h =>
+      cases c with
+      | empty => simp [evalV, evalWith, evalPlaceholder, PV.ofOption]
+      | push f r below =>
+        simp only [Ctx.allRecorded, Bool.and_eq_true] at hr
+        obtain ⟨hr1, hr2⟩ := hr
+        subst hr1
+        simp only [evalV, evalWith, evalPlaceholder_push]
+        cases hi : frameIndex f h with
+        | none => simp [PV.ofOption]
+        | some e' =>
+          have hs := frameIndex_size_le f h e' hi
+          simp only [VExpr.size, Ctx.weight] at hle
+          have := ih below e' hr2 (by omega)
+          simp [this]
 
 /-- with no value at all the clause fails exactly when it reaches a placeholder -/
 theorem evalCond_none_iff_reaches (id : Int) (c : Cond) :
